@@ -53,7 +53,7 @@ type Pkg struct {
 }
 
 type Case struct {
-	T string // filter | parse | merge | load | exit | cli | cone
+	T string // filter | parse | merge | load | loadbad | exit | cli | cone
 
 	All, Sel []string // filter (raw, mixed case); All also for load/exit/cli
 	Map      []KV     // filter: observed map
@@ -68,6 +68,8 @@ type Case struct {
 	Cli       []string
 	HasCli    bool
 	Effective []string // merge/load: observed
+	ConfKinds []string // loadbad: per level absent | ok | syntax | mistyped (outermost first)
+	LoadErr   bool     // loadbad: config.Load returned an error
 
 	Format          string // exit/cli
 	Fail            []string
@@ -389,6 +391,108 @@ func genLoad(rnd *hx.Rand, work string, idx int) Case {
 	return c
 }
 
+// staticcheck.conf contents that are valid TOML but give an option a value of the wrong type, for each of the
+// four list options, and contents with a syntax error
+var mistypedConfs = []string{
+	"checks = \"SA4018\"\n", "checks = [\"SA4000\", 3]\n", "[checks]\nx = 1\n", "checks = 7\n", "checks = [[\"all\"]]\n",
+	"initialisms = 5\n", "initialisms = \"ID\"\n", "initialisms = [\"ID\", true]\n",
+	"dot_import_whitelist = [1]\n", "dot_import_whitelist = \"x\"\n", "[dot_import_whitelist]\nx = 1\n",
+	"http_status_code_whitelist = true\n", "http_status_code_whitelist = [200]\n", "http_status_code_whitelist = 2.5\n",
+	"checks = [\"all\"]\ninitialisms = 1979-05-27\n",
+}
+var syntaxConfs = []string{"checks = [\"all\", oops\n", "checks = \n", "= 3\n"}
+
+func genLoadBad(rnd *hx.Rand, work string, idx int) Case {
+	c := Case{T: "loadbad"}
+	root := filepath.Join(work, fmt.Sprintf("loadbad%d", idx))
+	dir := root
+	depth := 1 + rnd.Intn(4)
+	bad := rnd.Intn(depth + 1) // == depth: no bad file at all
+	for i := 0; i < depth; i++ {
+		dir = filepath.Join(dir, fmt.Sprintf("d%d", i))
+		os.MkdirAll(dir, 0o777)
+		kind, content := "absent", ""
+		switch {
+		case i == bad && rnd.Chance(75):
+			kind, content = "mistyped", mistypedConfs[rnd.Intn(len(mistypedConfs))]
+		case i == bad:
+			kind, content = "syntax", syntaxConfs[rnd.Intn(len(syntaxConfs))]
+		case rnd.Bool():
+			kind, content = "ok", tomlList(pickList(rnd, 3, confTokens))
+		}
+		if kind != "absent" {
+			hx.WriteFile(filepath.Join(dir, "staticcheck.conf"), content)
+		}
+		c.ConfKinds = append(c.ConfKinds, kind)
+		c.Note += fmt.Sprintf("%s:%q ", kind, content)
+	}
+	_, err := config.Load(dir)
+	c.LoadErr = err != nil
+	os.RemoveAll(root)
+	return c
+}
+
+// genBadConf: the binary on a module whose directory a/ has an undecodable staticcheck.conf; packages a and a/b
+// fail to load and contribute one load error (identical errors are merged by printDiagnostics), the root package is
+// linted as usual. The load error is canonicalised (its text comes from the TOML library, its category is whatever
+// failed() assigns: both compile and config count as load errors for the exit status).
+func genBadConf(rnd *hx.Rand, exe, work string, names []string) []Case {
+	var cases []Case
+	cache := filepath.Join(work, "sc-cache")
+	os.MkdirAll(cache, 0o777)
+	for mi, conf := range []string{mistypedConfs[rnd.Intn(len(mistypedConfs))], mistypedConfs[0], syntaxConfs[rnd.Intn(len(syntaxConfs))]} {
+		root := filepath.Join(work, fmt.Sprintf("badconf%d", mi))
+		hx.WriteFile(filepath.Join(root, "go.mod"), fmt.Sprintf("module example.com/badconf%d\n\ngo 1.22\n", mi))
+		for i, d := range []string{".", "a", "a/b"} {
+			name := []string{"root", "a", "b"}[i]
+			hx.WriteFile(filepath.Join(root, d, name+".go"), fmt.Sprintf("package %s\n\nfunc F(x int) bool { return x == x }\n", name))
+		}
+		hx.WriteFile(filepath.Join(root, "a", "staticcheck.conf"), conf)
+		canon := func(rs []Rendered) []Rendered {
+			var out []Rendered
+			seen := false
+			for _, r := range rs {
+				if (r.Cat == "compile" || r.Cat == "config") && (strings.HasPrefix(r.Msg, "toml:") || strings.HasSuffix(r.File, "staticcheck.conf") || strings.Contains(r.Msg, "staticcheck.conf")) {
+					if !seen { // one load error per undecodable file, however it is positioned and worded
+						out = append(out, Rendered{Cat: "config", Msg: "<staticcheck.conf cannot be decoded>"})
+					}
+					seen = true
+					continue
+				}
+				out = append(out, r)
+			}
+			return out
+		}
+		out, _ := runStaticcheck(exe, root, cache, []string{"-checks", "*", "-f", "json", "./..."})
+		base, err := parseJSON(out)
+		if err != nil {
+			fatal(err)
+		}
+		var rootProblems []Problem
+		for _, r := range relTo(root, base) {
+			if filepath.Dir(r.File) == "." && r.File != "" && r.Cat != "compile" && r.Cat != "config" {
+				rootProblems = append(rootProblems, Problem{File: r.File, Line: r.Line, Col: r.Col, Cat: r.Cat, Msg: r.Msg})
+			}
+		}
+		pkgs := []Pkg{
+			{Kind: "named", Dir: ".", Chain: [][]string{nil}, HasChain: []bool{false}, Problems: rootProblems},
+			// a and a/b: failed packages; their identical load errors are printed once
+			{Kind: "faileddep", Dir: "a", Chain: [][]string{nil}, HasChain: []bool{false}, Problems: []Problem{{Cat: "config", Msg: "<staticcheck.conf cannot be decoded>"}}},
+		}
+		for _, f := range formats[:4] {
+			c := Case{T: "cone", All: names, Format: f, Pkgs: pkgs, Note: fmt.Sprintf("badconf a/staticcheck.conf=%q ./...", conf)}
+			out, code := runStaticcheck(exe, root, cache, []string{"-f", f, "./..."})
+			rs, err := parseOut(f, out)
+			if err != nil {
+				fatal(err)
+			}
+			c.Out, c.Exit = canon(relTo(root, rs)), code
+			cases = append(cases, c)
+		}
+	}
+	return cases
+}
+
 var exitCats = []string{"SA1000", "SA1001", "SA4006", "S1000", "ST1003", "U1000", "compile", "config", "staticcheck", "XX9999", "sa1000"}
 var exitMsgs = []string{"m0", "m1", "unused value of x", "should omit comparison"}
 var formats = []string{"text", "stylish", "json", "sarif", "null"}
@@ -702,6 +806,8 @@ func main() {
 			cases = append(cases, genParse(rnd))
 		case k < 6:
 			cases = append(cases, genMerge(rnd))
+		case k < 7 && (i/10)%3 == 2:
+			cases = append(cases, genLoadBad(rnd, *work, i))
 		case k < 7:
 			cases = append(cases, genLoad(rnd, *work, i))
 		default:
@@ -711,6 +817,7 @@ func main() {
 	if *exe != "" {
 		cases = append(cases, genCLI(rnd, *exe, *work, *nmods, *nruns, realNames)...)
 		cases = append(cases, genCone(*exe, *work, realNames)...)
+		cases = append(cases, genBadConf(rnd, *exe, *work, realNames)...)
 	}
 	hx.EmitJSON(*out, cases)
 }
